@@ -97,6 +97,10 @@ class Prov:
         if key in stack or len(stack) > 60:
             return {(("cycle",), ())}
         res = self._origins(fn, e, ctx, stack + (key,))
+        if not stack and any(r == ("cycle",) for r, _ in res) and any(r != ("cycle",) for r, _ in res):
+            # least fixpoint: re-entering a key that is being evaluated contributes only what that
+            # key yields anyway (with further projections); the roots are those already present
+            res = {(r, p) for r, p in res if r != ("cycle",)}
         if not any(r == ("cycle",) for r, _ in res):
             self._memo[key] = res
         return res
